@@ -4,6 +4,8 @@ pub mod c01;
 pub mod c02;
 pub mod c03;
 pub mod c04;
+pub mod c09;
+pub mod c16;
 pub mod common;
 pub mod smoke;
 pub mod txw;
@@ -15,6 +17,8 @@ pub fn run(what: &str, tier: &str, _rest: &[String]) -> i32 {
         "C02" => c02::run(tier),
         "C03" => c03::run(tier),
         "C04" => c04::run(tier),
+        "C09" => c09::run(tier),
+        "C16" => c16::run(tier),
         _ => {
             eprintln!("unknown check {} ({})", what, tier);
             64
